@@ -1001,12 +1001,25 @@ def correspondence(ctx):
     collect(res, outs)
     collect(res, routs)
     res.extra['resume_states'] = nres
-    res.extra['wall_s_by_part'] = {'history states': round(t1 - t0, 1), 'resume states': round(t2 - t1, 1)}
+    # the known findings of C20 are OBSERVED on the real code by every run (real BertE + mock host + real git): the
+    # oracle failure with the finding's key is recorded only while the real code shows the defect (harness/c20_witness.py)
+    from . import c20_witness
+    t3 = time.time()
+    c20_witness.phase(res)
+    res.extra['wall_s_by_part'] = {'history states': round(t1 - t0, 1), 'resume states': round(t2 - t1, 1),
+                                   'witnesses of known findings': round(time.time() - t3, 1)}
+    res.rule += (' || WITNESS PHASE (harness/c20_witness.py): the two known findings of C20 run on the real BertE + mock '
+                 'host + real git on every check (delete_branch of a hotfix branch deletes the queue of the stabilization '
+                 'branch of that version; rebuild_queues drops a pull request queued on development/x.y only when '
+                 'hotfix, stabilization and development queues of x.y coexist)')
     return res
 
 
 def replay(ctx, payload):
     inp = payload['failure']['input'] if 'failure' in payload else payload['input']
+    if isinstance(inp, dict) and inp.get('phase') == 'witness':
+        from . import c20_witness
+        return c20_witness.phase(Result(), only=inp.get('which'))
     h = {'cfg': inp['cfg'], 'events': inp['events'], 'jobs': inp['jobs']}
     res = Result()
     collect(res, [play_case(h, 'replay', ctx.model is not None)])
